@@ -75,4 +75,14 @@ example : (sModule strict (index [w 97, eq, val true, semi, beginKw false, eq, w
     comma, lbrace, rbrace, rpar, units, endKw false, eq, w 111, endStmt, junk, lpar])).isSome = true := by decide
 
 end Spec
+/-- **the production order the model follows is the one in the source** (`Gen.moduleProductions`,
+    `Gen.valueProductions` are read from `parse_module` / `parse_value` with `ast` on every run): block,
+    assignment, END in the module loop; set, sequence, post-hook for a value; in both loops a `LexerError`
+    is re-raised before the `ValueError` that means "try the next production" is swallowed. -/
+theorem C05_production_order :
+    Gen.moduleProductions = ["parse_aggregation_block", "parse_assignment_statement", "parse_end_statement"] ∧
+    Gen.moduleProductionCatches = ["LexerError", "ValueError"] ∧
+    Gen.valueProductions = ["parse_set", "parse_sequence", "parse_value_post_hook"] ∧
+    Gen.valueProductionCatches = ["LexerError", "ValueError"] := by decide
+
 end Pvl
